@@ -5,6 +5,7 @@ import RedisVerif.Model.Shards7
 import RedisVerif.Model.Script7
 import RedisVerif.Model.Dispatch
 import RedisVerif.Model.Server
+import RedisVerif.Model.RouteTable
 import RedisVerif.Driver.C01
 
 /-
@@ -31,6 +32,12 @@ import RedisVerif.Driver.C01
           (`Props/ServerConn.lean`, `node_end_to_end`: whatever the read segmentation, the partial
           writes and the batching configuration, the written byte stream is the concatenation of the
           frames' replies): hex of that byte stream (canonical order inside unordered replies)
+    ROUTETABLE                                      → the model's routing table (`Model/RouteTable.lean`): Variant:key;… sorted
+    ROUTEARMS                                       → the variants with an arm of their own in `execute`, sorted
+    ROUTEPROBE <N> <Variant> <nf> (S <key> <home> | V <n> (<key> <home>)* | P <n> (<key> <home>)* | X)*
+          → which of the N shards get a message when `execute` runs a command of that variant whose
+          fields are these (S: a String, V: a Vec<String>, P: the keys of a Vec<(String, SDS)>, X: any
+          other field; <home> = the key's shard under the real hash): a string of N 0/1 | no-row
     M7EVICT <now-ms>                                → evict    (the TTL tick: every shard adopts the time)
     M7DUMP <now-ms>                                 → visible keyspace (C01 dump syntax) | keys=[what KEYS * lists]
 -/
@@ -321,8 +328,44 @@ def showReply7 (c : Redis.Cmd) (r : Reply) : String :=
     | some x => C01.showReply (C01.canonReply c x)
     | none => "unmapped:" ++ showReply r
 
+/-- one field of a route probe: its tokens in the canonical rendering, and the homes of its keys -/
+def probeField : P (List Grammar.Tok × List (Nat × Nat)) := do
+  let t ← tok
+  let keyHome : P (Bytes × Nat) := do let b ← bytesTok; let h ← nat; pure (b, h)
+  match t with
+  | "S" => do let kh ← keyHome; pure ([.s kh.1], [(keyCode kh.1, kh.2)])
+  | "V" => do
+    let n ← nat; let l ← repeatP n keyHome
+    pure (.len n :: l.map (fun kh => Grammar.Tok.s kh.1), l.map (fun kh => (keyCode kh.1, kh.2)))
+  | "P" => do
+    let n ← nat; let l ← repeatP n keyHome
+    pure (.len n :: l.flatMap (fun kh => [Grammar.Tok.s kh.1, Grammar.Tok.d []]), l.map (fun kh => (keyCode kh.1, kh.2)))
+  | "X" => pure ([.none], [])
+  | _ => failure
+
+def parseRouteProbe : P (Nat × String × List Grammar.Tok × List (Nat × Nat)) := do
+  expect "ROUTEPROBE"
+  let n ← nat
+  let v ← tok
+  let nf ← nat
+  let fs ← repeatP nf probeField
+  pure (n, v, fs.flatMap (·.1), fs.flatMap (·.2))
+
+def routeProbe (n : Nat) (variant : String) (toks : List Grammar.Tok) (homes : List (Nat × Nat)) : String :=
+  match RouteTable.lookup (Grammar.s2b variant) with
+  | none => "no-row"
+  | some r =>
+    let R := Routes.ofTable n (NMap.ofList (homes.map (fun e => (e.1, (e.2, e.2)))))
+    String.ofList ((List.range n).map (fun i => if RouteTable.recvOf R r.arm r.sel toks i then '1' else '0'))
+
 def step (d : DState) (line : String) : DState × String :=
   match tokens line with
+  | ["ROUTETABLE"] => (d, RouteTable.render)
+  | ["ROUTEARMS"] => (d, RouteTable.renderArms)
+  | "ROUTEPROBE" :: _ =>
+    match runP parseRouteProbe line with
+    | some (n, v, toks, homes) => (d, routeProbe n v toks homes)
+    | none => (d, "bad-op")
   | ["ENTRYPOINTS"] => (d, ",".intercalate entryPointNames)
   | ["DISPATCH"] => (d, ",".intercalate dispatchTargets)
   | "M7NEW" :: _ =>
